@@ -40,6 +40,7 @@ const (
 type regState struct {
 	idx        int
 	host       string
+	alias      string // another address of the same registry (requests may go there with Host: host)
 	mode       regMode
 	realm      string // advertised realm URL
 	service    string
@@ -89,6 +90,13 @@ type world struct {
 	failed   bool
 	cancelOnFail context.CancelFunc
 	alwaysScope bool
+	revoked     map[string]bool // issued tokens the registry no longer accepts (expiry)
+	redirected  bool            // a 3xx was answered during the current Do call
+	noRedirect  bool
+	passthrough bool // the current request carries the caller's own Authorization header
+	perJobFetch map[int]int     // token requests per job (concurrent mixes)
+	ptable      []string        // parse results of headers outside Model/Challenge.v (for the model's parse_with)
+	ptableSeen  map[string]bool
 	noScope  bool           // a Bearer challenge without scope parameter was sent during this call
 	perReq   map[string]int // registry sends per X-Verif-Req (concurrent cases)
 
@@ -287,13 +295,21 @@ func (g *regState) challenge(w *world, repo, action string) string {
 	}
 	sc = append(sc, g.extraScope...)
 	common.Shuffle(w.r, sc)
-	ps := []chParam{{"realm", g.realm}, {"service", g.service}, {"scope", strings.Join(sc, " ")}}
+	sep := " "
+	if w.r.Chance(1, 8) {
+		sep = "  " // an empty element between two spaces
+	}
+	ps := []chParam{{"realm", g.realm}, {"service", g.service}, {"scope", strings.Join(sc, sep)}}
 	if !w.alwaysScope && w.r.Chance(1, 4) {
 		ps = ps[:2] // no scope parameter: only the hints decide
 		w.noScope = true
 	}
 	if w.r.Chance(1, 3) {
 		ps = append(ps, chParam{"error", "insufficient_scope"})
+	}
+	if w.r.Chance(1, 4) {
+		// free text: escapes and non-ASCII bytes inside a quoted string
+		ps = append(ps, chParam{"error_description", common.Pick(w.r, []string{"acc\u00e8s refus\u00e9", "say \"no\"", "back\\slash", "plain text", "tab\there"})})
 	}
 	if w.r.Chance(1, 2) {
 		common.Shuffle(w.r, ps)
@@ -307,10 +323,60 @@ func (g *regState) challenge(w *world, repo, action string) string {
 		if p.k != "realm" && tokenSafe(p.v) && w.r.Chance(1, 2) {
 			sb.WriteString(p.k + "=" + p.v)
 		} else {
-			sb.WriteString(p.k + common.Pick(w.r, []string{"=", "=", " = "}) + "\"" + p.v + "\"")
+			sb.WriteString(p.k + common.Pick(w.r, []string{"=", "=", " = "}) + quoteParam(p.v))
 		}
 	}
-	return sb.String()
+	hdr := sb.String()
+	w.checkChallenge(hdr, ps)
+	return hdr
+}
+
+// quoteParam renders a quoted-string: backslash and double quote are escaped.
+func quoteParam(v string) string {
+	return "\"" + strings.NewReplacer("\\", "\\\\", "\"", "\\\"").Replace(v) + "\""
+}
+
+// checkChallenge: the real parser must return exactly the parameters the header
+// was rendered from (independent ground truth); headers that Model/Challenge.v
+// does not judge (backslash or non-ASCII byte) are handed to the model with
+// what the real parser returned.
+func (w *world) checkChallenge(hdr string, ps []chParam) {
+	sch, got := auth.VerifParseChallenge(hdr)
+	want := map[string]string{}
+	for _, p := range ps {
+		want[p.k] = p.v
+	}
+	ok := sch == auth.SchemeBearer && len(got) == len(want)
+	for k, v := range want {
+		if got[k] != v {
+			ok = false
+		}
+	}
+	if !ok {
+		w.violate("challenge-params", "parseChallenge(%q) = %v %q, the registry built the header from %q", hdr, sch, got, want)
+	}
+	special := false
+	for i := 0; i < len(hdr); i++ {
+		if hdr[i] == '\\' || hdr[i] >= 0x80 {
+			special = true
+		}
+	}
+	if special && !w.ptableSeen[hdr] {
+		w.ptableSeen[hdr] = true
+		w.ptable = append(w.ptable, fmt.Sprintf("%s bearer %s %s %s", common.Hex(hdr), common.Hex(got["realm"]), common.Hex(got["service"]), common.Hex(got["scope"])))
+		run.Count("history/challenge-outside-model-parser")
+	}
+}
+
+func isTokenPath(p string) bool {
+	return p == "/token" || p == "/auth/token" || (len(p) > 2 && p[:2] == "/t" && p[2] >= '0' && p[2] <= '9')
+}
+
+func hostname(hostport string) string {
+	if i := strings.LastIndex(hostport, ":"); i >= 0 {
+		return hostport[:i]
+	}
+	return hostport
 }
 
 // RoundTrip is the whole network.
@@ -323,7 +389,7 @@ func (w *world) RoundTrip(req *http.Request) (*http.Response, error) {
 	host := req.URL.Host
 	dump := dumpRequest(req, body)
 
-	if w.authHost[host] {
+	if w.authHost[host] || isTokenPath(req.URL.Path) {
 		return w.tokenEndpoint(req, body, dump)
 	}
 	w.mu.Lock()
@@ -333,14 +399,43 @@ func (w *world) RoundTrip(req *http.Request) (*http.Response, error) {
 		return nil, fmt.Errorf("fakeNet: no such host %q", host)
 	}
 	// ---- oracle: only this registry's secrets may be here
+	followUp := req.Response != nil // created by net/http while following a redirect
 	for i, s := range w.scanSecrets(dump) {
 		if i != g.idx {
-			w.violate("cross-host", "request to registry %s carries a secret of registry %s (%q): %s", g.host, w.regs[i].host, s, oneLine(dump))
+			sig := "cross-host"
+			if followUp && req.Response.Request != nil {
+				from := req.Response.Request.URL.Host
+				if from != host && hostname(from) == hostname(host) {
+					// known finding: net/http keeps Authorization when a redirect stays on
+					// the same host NAME, whatever the port
+					sig = "redirect-other-port-keeps-authorization"
+				}
+			}
+			w.violate(sig, "request to registry %s carries a secret of registry %s (%q): %s", g.host, w.regs[i].host, s, oneLine(dump))
 		}
+	}
+	if followUp {
+		// the redirect target just serves the content; the hop is net/http's, not a send of Client.Do
+		run.Count("history/redirect-followed")
+		return resp(req, 200, nil, "content"), nil
 	}
 	ah := req.Header.Get("Authorization")
 	if strings.HasPrefix(ah, "Basic ") && !g.basicAsked {
 		w.violate("password-without-basic-challenge", "registry %s never sent a Basic challenge but receives %q", g.host, ah)
+	}
+	// the client only ever sends bearer tokens it was given for this registry
+	if strings.HasPrefix(ah, "Bearer ") && !w.passthrough {
+		t := ah[7:]
+		_, isIssued := w.tokens[t]
+		isBasicForm := false
+		for _, c := range []auth.Credential{g.cred, g.clientCred} {
+			if t == base64.StdEncoding.EncodeToString([]byte(c.Username+":"+c.Password)) {
+				isBasicForm = true // reported as scheme-confusion below
+			}
+		}
+		if !isIssued && !isBasicForm && t != g.clientCred.AccessToken {
+			w.violate("unknown-token-sent", "registry %s receives a bearer token that no token service issued and that is not the configured access token: %q", g.host, ah)
+		}
 	}
 	// a token cached under one scheme must not be replayed under the other
 	if strings.HasPrefix(ah, "Bearer ") {
@@ -382,13 +477,29 @@ func (w *world) RoundTrip(req *http.Request) (*http.Response, error) {
 			t := ah[7:]
 			if g.cred.AccessToken != "" && t == g.cred.AccessToken {
 				ok = true
-			} else if is, found := w.tokens[t]; found && is.reg == g.idx {
+			} else if is, found := w.tokens[t]; found && is.reg == g.idx && !w.revoked[t] {
 				ok = covers(is.scopes, repo, action)
 			}
 		}
 	}
 	if ok {
 		w.answers = append(w.answers, "K")
+		if !w.noRedirect && (req.Method == http.MethodGet || req.Method == http.MethodHead) && w.r.Chance(1, 10) {
+			// redirect: to another registry (other host name), to the same host name on
+			// another port when such a registry exists, or to this registry's alias
+			var targets []string
+			for _, x := range w.regs {
+				if x != g {
+					targets = append(targets, x.host)
+					if hostname(x.host) == hostname(g.host) {
+						targets = append(targets, x.host, x.host)
+					}
+				}
+			}
+			targets = append(targets, g.alias)
+			w.redirected = true
+			return resp(req, common.Pick(w.r, []int{307, 302}), http.Header{"Location": {"http://" + common.Pick(w.r, targets) + req.URL.Path}}, ""), nil
+		}
 		return resp(req, common.Pick(w.r, []int{200, 200, 201, 404, 403}), nil, "ok"), nil
 	}
 	ch := g.challenge(w, repo, action)
@@ -455,15 +566,27 @@ func (w *world) tokenEndpoint(req *http.Request, body []byte, dump string) (*htt
 			g = x
 		}
 	}
-	w.fetches++
-	w.fetchCount[service]++
+	followUp := req.Response != nil // net/http re-sent the token request after a redirect
+	if !followUp {
+		w.fetches++
+		w.fetchCount[service]++
+		if jb, ok := req.Context().Value(jobKey{}).(int); ok && w.perJobFetch != nil {
+			w.perJobFetch[jb]++
+		}
+	}
 	// ---- oracle
 	found := w.scanSecrets(dump)
 	for i, s := range found {
 		if g == nil || i != g.idx {
 			w.violate("secret-to-foreign-realm", "token request for service %q at %s carries a secret of registry %s (%q): %s", service, realm, w.regs[i].host, s, oneLine(dump))
 		} else if realm != g.realm {
-			w.violate("secret-to-unadvertised-realm", "secret of %s sent to %s but the registry advertises %s", g.host, realm, g.realm)
+			sig := "secret-to-unadvertised-realm"
+			if followUp {
+				// known finding: net/http re-sends the body of a 307/308-redirected POST (the
+				// password / refresh token of the OAuth2 flow) to the redirect target
+				sig = "redirect-token-request-resent"
+			}
+			w.violate(sig, "secret of %s sent to %s but the registry advertises %s", g.host, realm, g.realm)
 		}
 	}
 	for _, x := range w.regs {
@@ -518,10 +641,27 @@ func (w *world) tokenEndpoint(req *http.Request, body []byte, dump string) (*htt
 		}
 		ev = fmt.Sprintf("D%s:%s:%s:%s:%s", forh, common.Hex(realm), common.Hex(service), common.Hex(scopeStr), basic)
 	}
-	w.events = append(w.events, ev)
-	if w.injectFailure() {
-		w.mu.Unlock()
-		return nil, errInjected
+	if !followUp {
+		w.events = append(w.events, ev)
+		if w.injectFailure() {
+			w.mu.Unlock()
+			return nil, errInjected
+		}
+		if !w.noRedirect && w.r.Chance(1, 12) {
+			// the token service moved: 307 keeps method and body
+			other := "auth0.test"
+			if req.URL.Host == other {
+				other = "auth1.test:8443"
+			}
+			w.redirected = true
+			w.mu.Unlock()
+			run.Count("history/token-redirect")
+			loc := "http://" + other + "/token"
+			if req.URL.RawQuery != "" {
+				loc += "?" + req.URL.RawQuery
+			}
+			return resp(req, 307, http.Header{"Location": {loc}}, ""), nil
+		}
 	}
 	if !w.tokenUp {
 		valid = false
@@ -559,7 +699,7 @@ func (w *world) tokenEndpoint(req *http.Request, body []byte, dump string) (*htt
 
 func newWorld(r *common.Rand) *world {
 	w := &world{r: r, byHost: map[string]*regState{}, authHost: map[string]bool{}, tokens: map[string]*issued{},
-		fetchCount: map[string]int{}, tokenUp: true, failAt: -1}
+		fetchCount: map[string]int{}, tokenUp: true, failAt: -1, ptableSeen: map[string]bool{}, revoked: map[string]bool{}}
 	hosts := []string{"reg0.test", "reg1.test:5000", "reg0.test:443", "registry-3.example.io"}
 	n := 2 + r.Intn(3)
 	auths := []string{"auth0.test", "auth1.test:8443"}
@@ -567,7 +707,7 @@ func newWorld(r *common.Rand) *world {
 		w.authHost[a] = true
 	}
 	for i := 0; i < n; i++ {
-		g := &regState{idx: i, host: hosts[i], service: fmt.Sprintf("svc-h%d-", i)}
+		g := &regState{idx: i, host: hosts[i], service: fmt.Sprintf("svc-h%d-", i) + common.Pick(r, []string{"", "", "", "\u00e9", "\"q\"", "a\\b"})}
 		tag := fmt.Sprintf("-h%d-%x", i, r.U64()&0xffffff)
 		g.cred = auth.Credential{Username: "user" + tag, Password: "pw" + tag}
 		switch r.Intn(6) {
@@ -599,8 +739,10 @@ func newWorld(r *common.Rand) *world {
 		case 4:
 			g.clientCred.AccessToken = ""
 		}
+		g.alias = fmt.Sprintf("10.0.0.%d:5000", i+1)
 		w.regs = append(w.regs, g)
 		w.byHost[g.host] = g
+		w.byHost[g.alias] = g
 		w.randomizeMode(g)
 	}
 	return w
@@ -621,6 +763,11 @@ func (w *world) randomizeMode(g *regState) {
 	// realm on a token server shared with the other registries, or a private path
 	ah := common.Pick(r, []string{"auth0.test", "auth1.test:8443"})
 	g.realm = common.Pick(r, []string{"http://" + ah + "/token", "https://" + ah + "/auth/token", fmt.Sprintf("http://%s/t%d", ah, g.idx)})
+	if len(w.regs) > 0 && r.Chance(1, 4) {
+		// realm on the registry's own host, or on the host of ANOTHER registry
+		g.realm = "http://" + common.Pick(r, []string{g.host, common.Pick(r, w.regs).host}) + common.Pick(r, []string{"/token", "/auth/token"})
+		run.Count("history/realm-on-registry-host")
+	}
 	g.extraScope = nil
 	for k := r.Intn(3); k > 0; k-- {
 		g.extraScope = append(g.extraScope, common.Pick(r, []string{"repository:other:pull", "repository:lib/a:pull,push", "registry:catalog:*", "repository:lib/a:*", "repository:lib/a:push"}))
@@ -659,6 +806,21 @@ func (w *world) validFor(g *regState, oauth2 bool) bool {
 	return false
 }
 
+type tokRef struct {
+	token string
+	reg   int
+}
+
+// sortedTokens lists the issued tokens in a deterministic order.
+func sortedTokens(m map[string]*issued) []tokRef {
+	var l []tokRef
+	for tk, is := range m {
+		l = append(l, tokRef{tk, is.reg})
+	}
+	sort.Slice(l, func(i, j int) bool { return l[i].token < l[j].token })
+	return l
+}
+
 func credFlags(c auth.Credential) string {
 	f := func(s string) string {
 		if s != "" {
@@ -674,7 +836,8 @@ type onceReader struct{ r io.Reader }
 func (o onceReader) Read(p []byte) (int, error) { return o.r.Read(p) }
 
 var hintPool = []string{"repository:lib/a:pull", "repository:lib/a:push", "repository:lib/a:pull,push", "repository:lib/b:pull", "repository:other:*",
-	"registry:catalog:*", "repository:lib/a:delete", "foo", "repository:lib/a:", "repository:lib/b:pull,pull"}
+	"registry:catalog:*", "repository:lib/a:delete", "foo", "repository:lib/a:", "repository:lib/b:pull,pull",
+	"", "repository:lib/a:pull repository:lib/b:pull", "x y"}
 
 func genHints(r *common.Rand) []string {
 	if r.Chance(3, 5) {
@@ -701,12 +864,16 @@ func (w *world) credentialFunc() auth.CredentialFunc {
 	return func(_ context.Context, hostport string) (auth.Credential, error) {
 		w.mu.Lock()
 		defer w.mu.Unlock()
-		if g := w.byHost[hostport]; g != nil {
+		// credentials are configured for the registry's NAME only (not for its alias address)
+		if g := w.byHost[hostport]; g != nil && g.host == hostport {
 			return g.clientCred, nil
 		}
 		return auth.EmptyCredential, nil
 	}
 }
+
+// jobKey carries the job number of a concurrent mix in the request context.
+type jobKey struct{}
 
 func classifyResult(res *http.Response, err error) string {
 	switch {
@@ -750,7 +917,9 @@ func historyCase(hseed uint64) {
 		fmt.Fprintf(&line, " %d %s", g.idx, credFlags(g.clientCred))
 	}
 	nreq := 4 + r.Intn(run.Scale(9, 13))
-	fmt.Fprintf(&line, " %d", nreq)
+	nreqModel := nreq
+	head := line.String()
+	line.Reset()
 	nontrivial := false
 	for q := 0; q < nreq; q++ {
 		// scheme / realm changes mid-history
@@ -795,14 +964,30 @@ func historyCase(hseed uint64) {
 		case "once":
 			rd = onceReader{strings.NewReader(payload)}
 		}
-		req, err := http.NewRequestWithContext(ctx, method, "http://"+g.host+path, rd)
+		target := g.host
+		if r.Chance(1, 6) {
+			target = g.alias // connect to another address of the same registry, Host header = its name
+			run.Count("history/host-alias")
+		}
+		req, err := http.NewRequestWithContext(ctx, method, "http://"+target+path, rd)
 		if err != nil {
 			panic(err)
 		}
+		req.Host = g.host
 		w.cur, w.events, w.answers, w.regSends, w.fetches = g, nil, nil, 0, 0
 		w.violations = nil
 		w.noScope = false
 		w.failAt, w.sendIdx, w.failed, w.cancelOnFail = -1, 0, false, nil
+		w.redirected = false
+		// token expiry: the registry stops accepting one of the tokens it accepted so far
+		if r.Chance(1, 5) {
+			for _, is := range sortedTokens(w.tokens) {
+				if is.reg == g.idx && !w.revoked[is.token] && r.Chance(1, 2) {
+					w.revoked[is.token] = true
+					run.Count("history/token-revoked")
+				}
+			}
+		}
 		if r.Chance(1, 8) {
 			// one send of this call gets no response; half of the time because the
 			// caller's context is cancelled at that moment
@@ -813,6 +998,29 @@ func historyCase(hseed uint64) {
 			run.Count("history/failure-injected")
 		}
 		valid := w.validFor(g, oauth2) && g.mode != modeWeird && body != "once" && w.failAt < 0
+		// a request that already carries an Authorization header is passed through as it is
+		// (not a model request: it must not touch the cache, which the following requests show)
+		if r.Chance(1, 25) {
+			pre := fmt.Sprintf("Bearer caller-supplied-%x", r.U64()&0xffff)
+			req.Header.Set("Authorization", pre)
+			w.noRedirect, w.passthrough = true, true
+			w.failAt = -1
+			res, err := client.Do(req)
+			w.noRedirect, w.passthrough = false, false
+			if res != nil {
+				res.Body.Close()
+			}
+			run.Count("history/preset-authorization")
+			if err != nil || w.regSends != 1 || w.fetches != 0 || len(w.events) != 1 || !strings.HasSuffix(w.events[0], ":t?"+common.Hex(pre[7:])) {
+				run.OracleFail(id, "passthrough-modified", fmt.Sprintf("request %d of history %d carried its own Authorization header: expected exactly one send with that header, got %v (err %v)", q, hseed, w.events, err), rep)
+			}
+			for _, v := range w.violations {
+				run.OracleFail(id, v.sig, fmt.Sprintf("request %d of history %d (preset Authorization): %s", q, hseed, v.msg), rep)
+			}
+			cancelReq()
+			nreqModel--
+			continue
+		}
 		modeBefore := g.mode
 		res, err := client.Do(req)
 		result := classifyResult(res, err)
@@ -828,7 +1036,7 @@ func historyCase(hseed uint64) {
 		for _, a := range w.answers {
 			line.WriteString(" " + a)
 		}
-		if q > 0 {
+		if impl.Len() > 0 {
 			impl.WriteString(" | ")
 		}
 		impl.WriteString(strings.Join(append(append([]string{}, w.events...), result), " "))
@@ -844,13 +1052,18 @@ func historyCase(hseed uint64) {
 		if w.regSends > 3 || w.fetches > 1 {
 			run.OracleFail(id, "budget", fmt.Sprintf("%s: %d sends to the registry and %d token fetches: %v", where, w.regSends, w.fetches, w.events), rep)
 		}
-		if valid && !w.noScope && result != "=ok" {
+		if valid && !w.noScope && !w.redirected && result != "=ok" {
 			run.OracleFail(id, "valid-credentials-rejected", fmt.Sprintf("%s: the client holds valid credentials but Do ended with %s (%v): %v", where, result, err, w.events), rep)
 		}
 	}
-	run.Case(id, line.String(), impl.String())
+	full := fmt.Sprintf("%s %d", head, len(w.ptable))
+	for _, e := range w.ptable {
+		full += " " + e
+	}
+	full += fmt.Sprintf(" %d", nreqModel) + line.String()
+	run.Case(id, full, impl.String())
 	if nontrivial {
-		run.Nontrivial(line.String())
+		run.Nontrivial(full)
 	}
 	if len(run.Samples) < 2 {
 		run.Sample(map[string]any{"history_seed": hseed, "cache": flavour, "wire": impl.String()})
